@@ -360,7 +360,8 @@ func rulesDNATo2Bit(c *Ctx, r *Report, ntoiFn *ssa.Function) {
 	// the packed value is byte(Ntoi result) << shift, OR-ed into the byte
 	val := s.expr(shl.X)
 	packedOK := strings.Contains(val.String(), "call:sequtil.Ntoi")
-	if helperCall != nil {
+	if helperCall != nil && !packedOK {
+		// a code helper that is not rendered through its body
 		packedOK = strings.Contains(val.String(), "call:"+fname(guardFn)+"(")
 	}
 	r.check(packedOK, "MOD4", where, "packed value", c.pos(shl.Pos()), "the shifted value is the Ntoi result", "the shifted value is "+val.String())
